@@ -155,9 +155,9 @@ func ParseMxFunctionParameters(parameters string) ([]MurexFuncParam, error) {
 			case fpcTypeRead:
 				context++
 			case fpcDescRead:
-				mfp[counter].Description += " "
+				mfp[counter].Description += string([]rune{r})
 			case fpcDefaultRead:
-				mfp[counter].Default += " "
+				mfp[counter].Default += string([]rune{r})
 			default:
 				// do nothing
 				continue
